@@ -22,11 +22,12 @@ AB == Str(<<a, b>>)
 Cm == Str(<<comma>>)
 
 Atoms == {A1, B1, AB, Ref("R")}
-UF == {"opt", "star", "plus", "r12", "r2"}
+UF == {"opt", "star", "plus", "r12", "r2", "r0"}
 BF == {"seq", "left", "right", "choice", "sep", "sept", "sepk"}
 
 U(f, x) == CASE f = "opt" -> Opt(x) [] f = "star" -> Star(x) [] f = "plus" -> Plus(x)
              [] f = "r12" -> Rep(x, Nb(1), Nb(2)) [] f = "r2" -> Rep(x, Nb(2), Nb(2))
+             [] f = "r0" -> Rep(x, Nb(0), Nb(0))            \* e{0} / List(e, max_len=0)
 Bn(f, x, y) == CASE f = "seq" -> Seq2(x, y) [] f = "left" -> Left(x, y) [] f = "right" -> Right(x, y)
                  [] f = "choice" -> Ch2(x, y) [] f = "sep" -> SepPlain(x, y) [] f = "sept" -> SepTrailer(x, y)
                  [] f = "sepk" -> Sep(x, y, <<FALSE, TRUE, FALSE, FALSE>>)     \* only the constructor form exists
@@ -72,7 +73,7 @@ vars == <<part, rec, sp, ch, done>>
 Init ==
     /\ done = FALSE
     /\ \/ /\ part = "spell" /\ rec \in Recipes /\ sp \in Spellings /\ ch = <<>>
-          /\ (Tier = "quick" => (rec[1] <= 5 \/ sp[2] = 1))
+          /\ (Tier = "quick" => (rec[1] <= 5 \/ sp[2] = 1 \/ (rec[1] = 7 /\ sp[2] = 0)))
        \/ /\ part = "chain" /\ rec = <<0>> /\ sp = <<0, 0, "=", "nl", FALSE, FALSE, FALSE, FALSE>>
           /\ \E o1 \in Ops, o2 \in Ops, x1 \in ChainAtoms, x2 \in {A1, Cm}, x3 \in {B1, Cm, Opt(A1)} :
                 ch = <<x1, o1, Operand(o1, x2), o2, Operand(o2, x3)>>
